@@ -98,9 +98,18 @@ var plainSafeRe = regexp.MustCompile(`^[A-Za-z0-9+\-.~_][A-Za-z0-9+\-._]*$`)
 func plainSafe(s string) bool { return plainSafeRe.MatchString(s) && s != "-" }
 
 func loadDoc(doc string, env map[string]string, skip bool) json.RawMessage {
+	return loadDocs(map[string]string{"compose.yaml": doc}, env, skip)
+}
+
+// loadDocs loads compose.yaml together with secondary files (reached through extends / include).
+func loadDocs(files map[string]string, env map[string]string, skip bool) json.RawMessage {
+	fs := map[string]string{"missing.env": "K=v\n"}
+	for k, v := range files {
+		fs[k] = v
+	}
 	out := core.SafeCall(func() any {
 		return core.LoadOutcome(core.LoadReq{
-			Files:             map[string]string{"compose.yaml": doc, "missing.env": "K=v\n"},
+			Files:             fs,
 			ConfigFiles:       []string{"compose.yaml"},
 			Env:               env,
 			ProjectName:       "p",
@@ -145,6 +154,13 @@ var pinnedCastRows = []string{
 	"services.*.volumes.[].read_only", "services.*.volumes.[].volume.nocopy", "volumes.*.external",
 }
 
+// Props/C08.lean `notInSchema` (minus the `single` pseudo fields, which the enumeration here folds into `ulimits.*`)
+var notInSchemaPaths = []string{
+	"services.*.deploy.resources.limits.devices.[].count",
+	"services.*.deploy.resources.limits.generic_resources.[].discrete_resource_spec.value",
+	"services.*.deploy.resources.reservations.pids",
+}
+
 func isPinned(pat string) bool {
 	for _, p := range pinnedCastRows {
 		if p == pat {
@@ -170,7 +186,10 @@ func typedLeaves() map[string]string {
 			out[path] = "bytes"
 			return
 		case reflect.TypeOf(types.NanoCPUs(0)):
-			out[path] = "float"
+			out[path] = "nanocpus" // custom decoder (types/cpus.go): texts of kind float
+			return
+		case reflect.TypeOf(types.DeviceCount(0)):
+			out[path] = "devicecount" // custom decoder (types/device.go): texts of kind int
 			return
 		}
 		switch t.Kind() {
@@ -369,8 +388,13 @@ var typedTexts = map[string][]typedText{
 		{"abc", false}, {"1.5.2", false}, {"", false}, {"1,5", false}, {"half", false}},
 	"duration": {{"10s", true}, {"1m30s", true}, {"1h", true}, {"500ms", true}, {"1.5s", true}, {"0", true}, {"0s", true}, {"2h45m", true}, {"1000000us", true},
 		{"5", false}, {"abc", false}, {"10x", false}, {"", false}, {"1 s", false}, {"s", false}},
-	"bytes": {{"64m", true}, {"1gb", true}, {"1024", true}, {"512k", true}, {"0", true}, {"2g", true}, {"1024b", true}, {"1kb", true}, {"10M", true}, {"1.5g", true},
+	"bytes": {{"64m", true}, {"1gb", true}, {"1024", true}, {"512k", true}, {"0", true}, {"2g", true}, {"1024b", true}, {"1kb", true}, {"10M", true}, {"1.5g", true}, {"010", true}, {"0x10", true}, {"1_024", true}, {"-1", true},
 		{"abc", false}, {"10x", false}, {"", false}, {"m", false}, {"1 0", false}},
+}
+
+func init() {
+	typedTexts["nanocpus"] = typedTexts["float"]
+	typedTexts["devicecount"] = typedTexts["int"]
 }
 
 type typedArgs struct {
@@ -378,7 +402,19 @@ type typedArgs struct {
 	Kind  string `json:"kind"`
 	Text  string `json:"text"`
 	Valid bool   `json:"valid"`
-	Form  string `json:"form"` // var | default | split
+	Form  string `json:"form"`          // var | default | split
+	Dot   bool   `json:"dot,omitempty"` // the service is called "sv.c": the walk must escape the dot in the path
+}
+
+const dottedService = "sv.c"
+
+func renameService(d map[string]any, from, to string) {
+	if svcs, ok := d["services"].(map[string]any); ok {
+		if v, ok := svcs[from]; ok {
+			delete(svcs, from)
+			svcs[to] = v
+		}
+	}
 }
 
 func typedVarLeaf(form, text string) (string, map[string]string) {
@@ -405,6 +441,9 @@ func realTyped(raw json.RawMessage) any {
 	mk := func(leaf any) string {
 		d := place(typedContext(a.Pat), a.Pat, leaf)
 		typedSiblings(a.Pat, d)
+		if a.Dot {
+			renameService(d, "svc", dottedService)
+		}
 		return emitYAML(d)
 	}
 	out := map[string]any{}
@@ -424,10 +463,14 @@ func realTyped(raw json.RawMessage) any {
 var idxRe = regexp.MustCompile(`\[([^\]]*)\]`)
 
 // namesPath: the error text mentions the attribute (dotted or mapstructure spelling of the concrete path)
-func namesPath(errText, pat string) bool {
+func namesPath(errText, pat string, dot bool) bool {
 	norm := idxRe.ReplaceAllString(errText, ".$1")
 	parts := strings.Split(pat, ".")
-	names := map[string]string{"services": "svc", "networks": "net", "volumes": "vol", "secrets": "sec", "configs": "cfg", "depends_on": "dep", "ulimits": "nofile"}
+	svc := "svc"
+	if dot {
+		svc = dottedService
+	}
+	names := map[string]string{"services": svc, "networks": "net", "volumes": "vol", "secrets": "sec", "configs": "cfg", "depends_on": "dep", "ulimits": "nofile"}
 	var conc []string
 	for i, p := range parts {
 		switch p {
@@ -507,6 +550,13 @@ func judgeTyped(args, real, _ json.RawMessage) *core.Verdict {
 	}
 	tc := textClass(a.Kind, a.Text)
 	where := fmt.Sprintf("%s (%s) text %q form %s", a.Pat, a.Kind, a.Text, a.Form)
+	// (0) struct fields the Lean side lists as "not an attribute of the schema" (Props/C08.lean `notInSchema`) must indeed be
+	//     rejected when written as a literal
+	for _, np := range notInSchemaPaths {
+		if np == a.Pat && a.Valid && r.A != nil && A.isOk() {
+			return core.Fail("typed:not-in-schema-path-accepts-literal:"+a.Pat, where+": the Lean obligation typed_paths_covered exempts this path as absent from the schema, but the literal loads")
+		}
+	}
 	// (1) a variable is the same as the quoted literal, always
 	if Q.isOk() != V.isOk() {
 		return core.Fail("typed:var-vs-quoted-class:"+a.Pat, where+": quoted literal and variable differ in success")
@@ -534,6 +584,13 @@ func judgeTyped(args, real, _ json.RawMessage) *core.Verdict {
 		key := "typed:literal-vs-variable:" + a.Kind
 		if tc != "plain" {
 			key = "typed:yaml-number-syntax:" + tc
+			switch a.Kind {
+			case "nanocpus", "devicecount", "bytes":
+				// converted by the type's own DecodeMapstructure, not by the casters
+				key += ":" + a.Kind
+			}
+		} else if a.Kind == "nanocpus" || a.Kind == "devicecount" || a.Kind == "bytes" {
+			// key stays typed:literal-vs-variable:<kind> (the type's own decoder rejects or misreads the text)
 		} else if !converted && !Qs.isOk() {
 			key = "typed:no-conversion:" + a.Pat
 		}
@@ -556,7 +613,7 @@ func judgeTyped(args, real, _ json.RawMessage) *core.Verdict {
 			}
 			return core.Fail("typed:invalid-accepted:"+a.Kind+":"+a.Pat, where+": an unconvertible value is accepted")
 		}
-		if !namesPath(*V.Err, a.Pat) {
+		if !namesPath(*V.Err, a.Pat, a.Dot) {
 			return core.Fail("typed:error-does-not-name-path:"+a.Pat, where+": error does not name the attribute path: "+*V.Err)
 		}
 	}
@@ -586,6 +643,24 @@ func runC08Typed(ctx *core.Ctx) {
 			}
 		}
 		n++
+	}
+	// the same with a dotted service name (the path of the walk escapes the dot; a cast row must still match)
+	for i, p := range pats {
+		if !strings.HasPrefix(p, "services.") {
+			continue
+		}
+		kind := leaves[p]
+		var valid []typedText
+		for _, tt := range typedTexts[kind] {
+			if tt.Valid && textClass(kind, tt.Text) == "plain" {
+				valid = append(valid, tt)
+			}
+		}
+		for k := 0; k < ctx.Pick(1, 4) && k < len(valid); k++ {
+			tt := valid[(i+k)%len(valid)]
+			ctx.Count("typed-dotted-service:" + kind)
+			ctx.Add("c08typed", typedArgs{Pat: p, Kind: kind, Text: tt.Text, Valid: true, Form: forms[(i+k)%len(forms)], Dot: true})
+		}
 	}
 	ctx.Note("typed attribute paths enumerated by reflection: %d", len(pats))
 }
